@@ -19,10 +19,12 @@ from . import lib_mol, lib_ast, lib_embeds as EM, lib_molgen_c08 as MG, lib_rule
 PROPS = ['PGA.Props.C16']
 GEN = ['Chars', 'MolQuery']
 OBLIGATIONS = ['PGA.C16.' + t for t in [
-    'C16_atoms_conserved', 'C16_components_partition', 'C16_elements_conserved',
+    'C16_atoms_conserved', 'C16_components_partition', 'C16_elements_conserved', 'C16_components_connected',
+    'C16_components_closed_partial',
     'C16_edit_exact', 'C16_frame_atoms', 'C16_frame_bonds', 'C16_bond_edits_leave_atoms', 'C16_atom_edits_leave_bonds',
     'C16_edit_balance', 'C16_balance', 'C16_unbalanced_rejected', 'C16_read_edits_in_range',
-    'C16_one_product_set_per_match', 'C16_product_sets_eq_embeddings_partial', 'C16_matches_injective',
+    'C16_one_product_set_per_match', 'C16_run_per_match', 'C16_balance_run', 'C16_product_sets_eq_embeddings_partial',
+    'C16_matches_injective',
     'C16_wf_preserved', 'C16_static_balance_unsound_without_checks', 'C16_ethane_scission']]
 RULE = ('cases = (rule, molecule) pairs. Rules: ~110 designed unimolecular rules (the docstring C-H scission, homolytic '
         'scissions, bond-order changes, recombination / ring closure, H shift, beta scission, radical / charge / radical-set '
@@ -536,6 +538,9 @@ def run_model(ctx, rcs, requests):
                 ctx.disagree('corr:c16.run', inp, res if res[0] == 'exc' else ('ok', len(res[1])), {'ok': len(ordered)})
                 continue
             for f, p, q in zip(ms, res[1], ordered):
+                ctx.count('model_components_closed_%s' % q.get('closed'))
+                if q.get('closed') is not True:
+                    raise common.MachineryError('the model\'s component labelling did not reach its fixed point on %r' % (inp,))
                 if isinstance(p, str):
                     ctx.disagree('corr:c16.run', dict(inp, match=list(f)), p, 'products')
                     break
@@ -649,6 +654,8 @@ def run_apply_tie(ctx, pool):
         ctx.count('corr_c16.apply')
         ctx.count('apply_' + (r.get('err') or 'ok'))
         if 'err' not in r:
+            if r.get('closed') is not True:
+                raise common.MachineryError('the model\'s component labelling did not reach its fixed point on %r' % (inp,))
             r = {'atoms': r['atoms'], 'bonds': sorted([sorted(b[:2]), b[2]] for b in r['bonds']), 'comps': r['comps']}
         if impl != r:
             ctx.disagree('corr:c16.apply', inp, impl, r)
